@@ -498,7 +498,8 @@ def Built.matchBits (b : Built) (name : Str) (rxHits : List Nat) : Option (List 
 
 /-- `MatchDomainBitmap`, as the list of set indices whose bit is 1. -/
 def Built.matchIndices (b : Built) (name : Str) (rxHits : List Nat) : Option (List Nat) :=
-  (b.matchBits name rxHits).map fun bits => (List.range b.sets.size).filter fun i => bits.getD i false
+  (b.matchBits name rxHits).map fun bits =>
+    ((List.range b.sets.size).zip bits).filterMap fun p => if p.2 then some p.1 else none
 
 def Built.matchIndicesSpec (b : Built) (name : Str) (rxHits : List Nat) : List Nat :=
   let dom := normName name
@@ -547,7 +548,8 @@ deriving Repr
 /-- the meaning of a whole configuration for set `i`: some valid pattern added under index `i`
 matches. -/
 def docMatches (log : List AddCall) (i : Nat) (name : Str) (rxHits : List Nat) : Bool :=
-  log.any fun a => a.idx == i && a.pats.any fun p => patValid a.kind p && patMatches a.kind p (normName name) rxHits
+  let dom := normName name
+  log.any fun a => a.idx == i && a.pats.any fun p => patMatches a.kind p dom rxHits && patValid a.kind p
 
 def Matcher.replay (bitLength : Nat) (log : List AddCall) : Matcher :=
   log.foldl (fun m a => m.addSet a.idx a.kind a.pats) (Matcher.new bitLength)
